@@ -867,6 +867,91 @@ void RunTask(const ParamsD& p) {
   }
 }
 
+// ---- family E: Connect(future, promise / shared promise) with the source already fulfilled at the call (the result is
+// handed over on the spot and the source state must be released by Connect itself) or still pending (handed over by the
+// producer's completion); the consumer reads the target
+struct ParamsE {
+  int src;    // 0 value, 1 error, 2 promise dropped
+  int ready;  // 1: the source is fulfilled before Connect, 0: a producer fiber fulfils it concurrently
+  int tgt;    // 0 Promise, 1 SharedPromise
+};
+
+void RunConnect(const ParamsE& p) {
+  gFn.Reset();
+  gVal.Reset();
+  vrt::g.trace_unknown = false;
+  std::memset(gTable, 0, sizeof(gTable));
+  gLiveBlocks = 0;
+  gInExecution = true;
+  {
+    auto [f, pr] = [] {
+      Count cnt;
+      return yaclib::MakeContract<Val, Err>();
+    }();
+    auto fulfil = [&p](yaclib::Promise<Val, Err> q) {
+      Count cnt;
+      switch (p.src) {
+        case 0:
+          std::move(q).Set(Val{1});
+          break;
+        case 1:
+          std::move(q).Set(Err{5});
+          break;
+        default: {
+          auto d = std::move(q);
+        }
+      }
+    };
+    auto connect_and_read = [&p](yaclib::Future<Val, Err> src) {
+      Count cnt;
+      if (p.tgt == 0) {
+        auto [f2, p2] = yaclib::MakeContract<Val, Err>();
+        yaclib::Connect(std::move(src), std::move(p2));
+        R r = std::move(f2).Get();
+        (void)r;
+      } else {
+        auto [sf2, sp2] = yaclib::MakeSharedContract<Val, Err>();
+        yaclib::Connect(std::move(src), std::move(sp2));
+        const R& r = sf2.Get();
+        (void)r;
+      }
+    };
+    if (p.ready) {
+      fulfil(std::move(pr));
+      connect_and_read(std::move(f));
+    } else {
+      yaclib_std::thread tp([&, pr = std::move(pr)]() mutable {
+        vrt::NameThread("P");
+        fulfil(std::move(pr));
+      });
+      yaclib_std::thread tc([&, f = std::move(f)]() mutable {
+        vrt::NameThread("C");
+        connect_and_read(std::move(f));
+      });
+      tp.join();
+      tc.join();
+    }
+  }
+  gInExecution = false;
+  for (auto& e : gFn.errors) {
+    vrt::Fail("functor: " + e);
+  }
+  for (auto& e : gVal.errors) {
+    vrt::Fail("value: " + e);
+  }
+  for (void* q : gQuarantine) {
+    std::free(q);
+  }
+  gQuarantine.clear();
+  gFreed.clear();
+  if (!gVal.live.empty()) {
+    vrt::Fail(std::to_string(gVal.live.size()) + " value instance(s) never destroyed");
+  }
+  if (gLiveBlocks != 0) {
+    vrt::Fail("allocation balance at quiescence is " + std::to_string(gLiveBlocks) + " blocks");
+  }
+}
+
 }  // namespace
 
 void* operator new(std::size_t n) {
@@ -978,6 +1063,16 @@ int main(int argc, char** argv) {
             }
           }
         }
+      }
+    }
+  }
+  for (int src = 0; src < 3; ++src) {
+    for (int ready = 0; ready < 2; ++ready) {
+      for (int tgt = 0; tgt < 2; ++tgt) {
+        ParamsE p{src, ready, tgt};
+        m.Scenario("connect/s" + std::to_string(src) + "r" + std::to_string(ready) + "t" + std::to_string(tgt), [p] {
+          RunConnect(p);
+        });
       }
     }
   }
